@@ -32,6 +32,7 @@ func runC13(c *Ctx) {
 	c13SingleCommit(c)
 	c13ReadOnlyIndexScan(c)
 	indexEntryName(c, "R3")
+	treeListingsCoverWholeTree(c, "R5")
 	attrFilterKeepsOptOuts(c, "R4")
 	fp := p.Fn("commands", "fsckPointer")
 	objs := p.Fn("commands", "doFsckObjects")
